@@ -44,13 +44,15 @@ Code it is anchored in: {', '.join(p['anchors']['files'])}
    call leaving state behind, or two cooperating sites — NOT something that ordinary first use (the README
    example, a cubic mesh with default arguments) would expose at once.  Aim for subtle: a careful generic
    checker of the property should have to work to find it.  The two changes must have different root causes
-   and preferably live in different functions.  For THIS round: change (a) must need a multi-step sequence of
-   operations or state left behind by an earlier call (e.g. something remembered from a previous read, an
-   in-place modification followed by a later query, an object derived from another one and then modified, a
-   second call with the same argument object) - a single call on a freshly constructed object must NOT show it.
-   Change (b) should involve two cooperating sites that each look fine alone, or an unusual-but-legitimate
-   combination of inputs (dtype x shape x naming x masks x scale) that a checker drawing each input aspect
-   independently would hit only rarely.
+   and preferably live in different functions.  For THIS round: change (a) must live in a *shared helper or utility* that the
+   anchored code relies on (for example Region/Mesh helper methods and properties, `Field._as_array`, the
+   component-to-axis mapping helpers, dtype/shape normalisation, the io helpers, `discretisedfield/util`), so that
+   its effect on THIS property is indirect and shows only for particular inputs.  Change (b) must manifest only
+   for particular *numeric regimes or argument types*: very large or very small coordinates or values, values
+   near the limits of the dtype, integer overflow, negative zero, non-finite entries where they are legitimate,
+   numpy scalars / 0-d arrays / generators / pathlib paths / tuples vs lists vs arrays as arguments, keyword vs
+   positional use, default arguments.  In both cases a checker that only tries "ordinary" floats, lists and
+   mid-range magnitudes on fresh objects must not see it.
 4. comes with a demonstration `demo.py`: a small stand-alone program using only the public API that checks
    the PROPERTY (not an implementation detail) on a few inputs, exits 0 on the unchanged library and exits
    non-zero (assertion/exception) with your change applied.  The demo must be a legitimate consequence of
